@@ -14,15 +14,23 @@ theorem c09_nopanic_h264 (avc : Bool) (buf payload : Bytes) :
     (unmarshal avc buf payload).1 ≠ .panic :=
   unmarshal_ne_panic avc buf payload
 
+theorem c09_nopanic_h264_zero (zero avc : Bool) (buf payload : Bytes) :
+    (unmarshalZ zero avc buf payload).1 ≠ .panic := by
+  unfold unmarshalZ
+  split
+  · simp
+  · exact unmarshal_ne_panic avc buf payload
+
 /-- the predicate the harness evaluates on the real receiver holds of the model's observation, for
-    every history of payloads and every initial FU-A buffer -/
-theorem c09_h264 (avc : Bool) (buf : Bytes) (payloads : List (Option Bytes)) :
-    C09.histOk false (c09Calls avc buf payloads) = true := by
+    every history of payloads, every initial FU-A buffer, Annex-B or AVC output, with or without
+    `SetZeroAllocation` -/
+theorem c09_h264 (zero avc : Bool) (buf : Bytes) (payloads : List (Option Bytes)) :
+    C09.histOk false (c09Calls zero avc buf payloads) = true := by
   induction payloads generalizing buf with
   | nil => simp [c09Calls, C09.histOk]
   | cons p ps ih =>
-    have hp := unmarshal_ne_panic avc buf (p.getD [])
-    have := ih (unmarshal avc buf (p.getD [])).2
+    have hp := c09_nopanic_h264_zero zero avc buf (p.getD [])
+    have := ih (unmarshalZ zero avc buf (p.getD [])).2
     simp only [C09.histOk, List.all_eq_true] at this ⊢
     intro o ho
     simp only [c09Calls, List.mem_cons] at ho
